@@ -68,9 +68,14 @@ def expected_entries(bspec):
     out = []
     for e in bspec["entries"]:
         base, dots, r1, r2 = e["v"]
-        ps = None if not e["notes"] else [(n[0], n[1]) for n in e["notes"]]
+        ps = None if not e["notes"] else sorted((n[0], n[1]) for n in e["notes"])
         out.append((ps, Fraction(base), dots, (r1, r2)))
     return out
+
+
+def canon_entries(entries):
+    """the notes of a chord are a set: their order inside < > is not part of the statement"""
+    return [(None if e[0] is None else sorted(e[0]), e[1], e[2], e[3]) for e in entries]
 
 
 def keyname(key):
@@ -78,7 +83,7 @@ def keyname(key):
 
 
 def check_ly_bar(ctx, node, bspec, w, showkey, showtime, mech=""):
-    got = node["entries"]
+    got = canon_entries(node["entries"])
     exp = expected_entries(bspec)
     ok = got == exp
     detail = None
@@ -114,7 +119,7 @@ def check_ly_track(ctx, node, tspec, w):
         ctx.check("lilypond: key and time are shown wherever they change between bars (running state equals each bar's)",
                   key == keyname(bs["key"]) and time == tuple(bs["meter"]), dict(w, bar=bi), [keyname(bs["key"]), tuple(bs["meter"])],
                   [key, time], mechanism="ly-running-state")
-        got, exp = bn["entries"], expected_entries(bs)
+        got, exp = canon_entries(bn["entries"]), expected_entries(bs)
         ctx.check("lilypond: every entry decodes to the same pitches (letter, accidentals, octave), base value, dots and tuplet ratio",
                   got == exp, dict(w, bar=bi), exp[:2], got[:2], mechanism="ly-entries-track")
 
@@ -145,25 +150,39 @@ def check_xml(ctx, doc, cspec, w):
             ctx.check("musicxml: each measure carries the bar's meter, key signature and mode",
                       (m["beats"], m["beat_type"], m["fifths"], m["mode"]) == (str(bs["meter"][0]), str(bs["meter"][1]), str(k[1]), k[2]),
                       www, [bs["meter"], k[1], k[2]], [m["beats"], m["beat_type"], m["fifths"], m["mode"]], mechanism="xml-attributes")
-            exp = []
+            exp = []            # one group per entry: (sorted pitches | None, dots, quarters)
             for e in bs["entries"]:
                 v = MM.val_of(e["v"])
                 q = v.length * 4
                 if not e["notes"]:
-                    exp.append({"pitch": None, "chord": False, "dots": v.dots, "quarters": q})
+                    exp.append((None, v.dots, q, 1))
                 else:
-                    for i, n in enumerate(e["notes"]):
-                        exp.append({"pitch": (n[0][0], T.net(n[0]), n[1]), "chord": i > 0, "dots": v.dots, "quarters": q})
-            got = m["notes"]
-            for field, clause, mech in (("pitch", "musicxml: one note element per note or rest whose step, alteration and octave give the pitch", "xml-pitch"),
-                                        ("chord", "musicxml: chord membership marks every chord note after the first", "xml-chord"),
-                                        ("dots", "musicxml: the number of dots matches", "xml-dots"),
-                                        ("quarters", "musicxml: duration divided by divisions equals the length in quarter notes", "xml-duration")):
-                e_ = [x[field] for x in exp]
-                g_ = [x[field] for x in got]
-                bad = next((i for i, (a, b) in enumerate(zip(e_, g_)) if a != b), None) if len(e_) == len(g_) else -1
-                ctx.check(clause, e_ == g_, www, None if bad is None else (str(e_[bad]) if bad >= 0 else len(e_)),
-                          None if bad is None else (str(g_[bad]) if bad >= 0 else len(g_)), mechanism=mech)
+                    exp.append((sorted((n[0][0], T.net(n[0]), n[1]) for n in e["notes"]), v.dots, q, len(e["notes"])))
+            # group the decoded note elements: a note without <chord/> starts a new entry
+            groups, shape_ok = [], True
+            for x in m["notes"]:
+                if x["chord"]:
+                    if not groups or groups[-1]["pitches"] is None or x["pitch"] is None:
+                        shape_ok = False
+                        break
+                    groups[-1]["pitches"].append(x["pitch"])
+                    groups[-1]["dots"].add(x["dots"])
+                    groups[-1]["quarters"].add(x["quarters"])
+                else:
+                    groups.append({"pitches": None if x["pitch"] is None else [x["pitch"]], "dots": {x["dots"]}, "quarters": {x["quarters"]}})
+            ctx.check("musicxml: chord membership marks every chord note after the first", shape_ok and
+                      [len(g["pitches"]) if g["pitches"] else 1 for g in groups] == [e[3] for e in exp], www,
+                      [e[3] for e in exp], [len(g["pitches"]) if g["pitches"] else 1 for g in groups] if shape_ok else "chord mark on a rest / first note",
+                      mechanism="xml-chord")
+            if shape_ok and len(groups) == len(exp):
+                ctx.check("musicxml: one note element per note or rest whose step, alteration and octave give the pitch",
+                          [None if g["pitches"] is None else sorted(g["pitches"]) for g in groups] == [e[0] for e in exp], www,
+                          [e[0] for e in exp][:3], [g["pitches"] for g in groups][:3], mechanism="xml-pitch")
+                ctx.check("musicxml: the number of dots matches", all(g["dots"] == {e[1]} for g, e in zip(groups, exp)), www,
+                          [e[1] for e in exp], [sorted(g["dots"]) for g in groups], mechanism="xml-dots")
+                ctx.check("musicxml: duration divided by divisions equals the length in quarter notes",
+                          all(g["quarters"] == {e[2]} for g, e in zip(groups, exp)), www, [str(e[2]) for e in exp],
+                          [[str(q) for q in g["quarters"]] for g in groups], mechanism="xml-duration")
 
 
 def run(shard, ctx):
@@ -205,8 +224,8 @@ def run(shard, ctx):
                         node = ly.read_music(s)
                     except ly.LyError as e:
                         ok, s = False, "%s (%s)" % (s, e)
-                exp = [(None if notes is None else [(n[0], n[1]) for n in notes], Fraction(v.base), v.dots, (1, 1))]
-                ctx.check("lilypond: a container decodes to the same pitches with its base value and dots", ok and node["entries"] == exp, w,
+                exp = [(None if notes is None else sorted((n[0], n[1]) for n in notes), Fraction(v.base), v.dots, (1, 1))]
+                ctx.check("lilypond: a container decodes to the same pitches with its base value and dots", ok and canon_entries(node["entries"]) == exp, w,
                           exp, node["entries"] if node else repr(s), mechanism="ly-container")
                 st, s2 = ctx.call(LP.from_NoteContainer, nc, None, False)
                 ctx.check("lilypond: a container without duration carries no duration", st == "ok" and not any(ch.isdigit() for ch in s2), w,
